@@ -429,7 +429,9 @@ class UnitCalculator(object):
             assert isinstance(quantity2, self._registry.Quantity)
             base1 = self._registry.get_base_units(1 * quantity1.units)
             base2 = self._registry.get_base_units(1 * quantity2.units)
-            return math.isclose(base1[0], base2[0]) and base1[1] == base2[1]
+            # compare dimensions, not base units: radian is a base unit without a dimension (as in is_equivalent)
+            return (math.isclose(base1[0], base2[0]) and
+                    quantity1.units.dimensionality == quantity2.units.dimensionality)
 
         list_of_quantities = iter(list_of_quantities)
         first = next(list_of_quantities, True)
